@@ -505,6 +505,19 @@ fn drive<R: HRole>(rng: &mut Rng, role_n: u64, ver: u64, bias: u64, abuse: bool,
         let roll = rng.below(100);
         // ---- things possible in any state ----
         if roll < 3 {
+            if (bias == 6 || bias == 8 || bias == 16) && g.as_client && s.status == 2 && rng.chance(1, 2) {
+                // the connection is lost with a SUBSCRIBE / UNSUBSCRIBE still unanswered
+                run.apply(&Op::Acquire, &mut st);
+                if let Some(id) = run.last_acquired.take() {
+                    if let Some(p) = mk_sub(wv, id, rng.chance(1, 2)) {
+                        run.apply(&Op::Send(p), &mut st);
+                        observe(&run, &mut g);
+                    }
+                }
+                if run.dead {
+                    continue;
+                }
+            }
             run.apply(&Op::Closed, &mut st);
             observe(&run, &mut g);
             g.in_q1.clear();
@@ -630,7 +643,19 @@ fn drive<R: HRole>(rng: &mut Rng, role_n: u64, ver: u64, bias: u64, abuse: bool,
         match s.status {
             0 => {
                 // disconnected
-                if g.as_client {
+                if (bias == 6 || bias == 8 || bias == 16) && s.need_store && rng.chance(1, 2) {
+                    // dwell on a closed persistent session: offline publishes, identifier traffic, and now and then
+                    // the transport reported closed AGAIN before the next CONNECT
+                    if rng.chance(1, 4) {
+                        run.apply(&Op::Closed, &mut st);
+                        observe(&run, &mut g);
+                        g.in_q1.clear();
+                        g.in_q2.clear();
+                        g.in_rel.clear();
+                        continue;
+                    }
+                    local_send(&mut run, rng, &mut g, &s, wv, bias, &mut st, &small_ids);
+                } else if g.as_client {
                     if rng.chance(3, 4) {
                         let p = mk_connect(rng, wv);
                         run.apply(&Op::Send(p), &mut st);
@@ -922,6 +947,29 @@ fn peer_traffic<R: HRole>(
         b[1] = (b.len() - 2) as u8;
         feed(run, rng, b, g, st, abuse);
         return;
+    }
+    // bias 13: the peer binds an alias, binds the SAME alias to another topic, then uses the alias alone
+    if bias == 13 && wv == 5 && s.status == 2 && rng.chance(1, 6) {
+        if let Some((max, _)) = &s.topic_alias_recv {
+            if *max >= 1 {
+                let a = rng.range(1, (*max as u64).min(2)) as u16;
+                let i = rng.below(TOPICS.len() as u64) as usize;
+                let t1 = TOPICS[i];
+                let t2 = TOPICS[(i + 1 + rng.below(TOPICS.len() as u64 - 1) as usize) % TOPICS.len()];
+                let mk = |t: &str| -> Option<Packet> {
+                    v5_0::GenericPublish::<Pid>::builder().topic_name(t).ok()?.qos(Qos::AtMostOnce).payload(vec![0x61u8; 1])
+                        .props(vec![mqtt::packet::TopicAlias::new(a).unwrap().into()]).build().ok().map(|x| x.into())
+                };
+                let seq: Vec<&str> = if rng.chance(1, 2) { vec![t1, t2, ""] } else { vec![t2, ""] };
+                for t in seq {
+                    if run.dead { return }
+                    if let Some(p) = mk(t) {
+                        feed(run, rng, bytes_of(&p), g, st, abuse);
+                    }
+                }
+                return;
+            }
+        }
     }
     let roll = rng.below(100);
     let pick_from = |rng: &mut Rng, set: &Vec<u64>| -> Option<u64> {
